@@ -414,5 +414,6 @@ pub fn property() -> Property {
         assumptions: vec!["the protected map comes from the generator's construction, not from the tokenizer; the exclusion rule guards the one way it could be wrong"],
         families,
         prelude: None,
+        epilogue: None,
     }
 }
